@@ -81,7 +81,7 @@ def _one_graph_body(ctx, dn, G, m, nodes, strings):
         q = dict(u=u, v=v, start=start, end=end, sample=sample)
         ctx.case["query"] = q
         try:
-            res = al.time_respecting_paths(G, u, v, start, end, sample)
+            res = _paths.trp(al, ctx.rng, G, u, v, start, end, sample)
         except Exception as ex:
             if raised_in_library(ex):
                 ctx.violation("raised", dict(q, exception=repr(ex)))
@@ -99,7 +99,7 @@ def _one_graph_body(ctx, dn, G, m, nodes, strings):
     mt = ctx.rng.choice([None] + ids)
     q = dict(fn="all_time_respecting_paths", min_t=mt)
     try:
-        res = al.all_time_respecting_paths(G, None, None, 1, mt)
+        res = _paths.atrp(al, ctx.rng, G, None, None, 1, mt)
     except Exception as ex:
         if raised_in_library(ex):
             ctx.violation("raised", dict(q, exception=repr(ex)))
